@@ -5466,29 +5466,48 @@ func (a *Agent) forwardShellClientData(streamID uint64, nextHop identity.AgentID
 			return // Adapter closed
 		}
 
-		// Encrypt data before sending
-		encryptedData, err := sessionKey.Encrypt(data)
-		if err != nil {
-			a.logger.Error("failed to encrypt shell client data",
-				logging.KeyStreamID, streamID,
-				logging.KeyError, err)
-			adapter.Close()
-			return
-		}
+		// A sealed message must fit in one frame: split large stdin messages
+		for _, msg := range splitShellStdin(data, protocol.MaxPayloadSize-crypto.EncryptionOverhead) {
+			// Encrypt data before sending
+			encryptedData, err := sessionKey.Encrypt(msg)
+			if err != nil {
+				a.logger.Error("failed to encrypt shell client data",
+					logging.KeyStreamID, streamID,
+					logging.KeyError, err)
+				adapter.Close()
+				return
+			}
 
-		frame := &protocol.Frame{
-			Type:     protocol.FrameStreamData,
-			StreamID: streamID,
-			Payload:  encryptedData,
-		}
-		if err := a.peerMgr.SendToPeer(nextHop, frame); err != nil {
-			a.logger.Debug("shell client send error",
-				logging.KeyStreamID, streamID,
-				logging.KeyError, err)
-			adapter.Close()
-			return
+			frame := &protocol.Frame{
+				Type:     protocol.FrameStreamData,
+				StreamID: streamID,
+				Payload:  encryptedData,
+			}
+			if err := a.peerMgr.SendToPeer(nextHop, frame); err != nil {
+				a.logger.Debug("shell client send error",
+					logging.KeyStreamID, streamID,
+					logging.KeyError, err)
+				adapter.Close()
+				return
+			}
 		}
 	}
+}
+
+// splitShellStdin splits a stdin message (type byte + payload) that is larger
+// than max bytes into several stdin messages of at most max bytes each. Other
+// messages are returned unchanged.
+func splitShellStdin(data []byte, max int) [][]byte {
+	if len(data) <= max || data[0] != shell.MsgStdin {
+		return [][]byte{data}
+	}
+	var msgs [][]byte
+	for payload := data[1:]; len(payload) > 0; {
+		n := min(len(payload), max-1)
+		msgs = append(msgs, shell.EncodeMessage(shell.MsgStdin, payload[:n]))
+		payload = payload[n:]
+	}
+	return msgs
 }
 
 // cleanupShellClientStream cleans up a shell client stream.
